@@ -7,7 +7,16 @@
   `SanitizerConfig` with every builder field. The predicates `elemOk`, `attrOk`, `valueOk`,
   `classOk`, `AllElemsL`, `NoOtherL`, `depthOfL`, `textOfL`, `keptTextL` are the vocabulary of
   `Spec/HtmlPolicy.lean` (what a configuration promises); `Spec/HtmlAllow.lean` holds the Matrix
-  spec's lists. The first block of theorems holds for EVERY configuration, every choice of static
+  spec's lists. `valueOk` (with `denied`, `schemeList`), `classOk`, `renamed`, `renamedAttr`,
+  `tooDeep`, `keptText` and the selection in `keptElems` are written there with `mapGet`, list
+  operations and the glob relation `GlobCp` of `Spec/HtmlGlob.lean` only — they call no function of
+  the model; `Lemmas/HtmlPolicy.lean` proves that the model's `node_action` /
+  `clean_element_attributes` / `apply_replacements` compute them (`*_eq_model`), and
+  `Lemmas/HtmlGlob.lean` that the model of `WildMatch::matches` decides `GlobCp`, which on strings
+  of Unicode scalar values is the relation `Glob` of `Spec/Glob.lean`. The one place where a
+  statement still contains a model function on its specification side is the attribute SET that
+  `keptElems` attaches to a kept element (`cleanAttrs … (replaceAttrsOf …)`, see there).
+  The first block of theorems holds for EVERY configuration, every choice of static
   lists and every tree. The second block evaluates the promises for `strict()`/`compat()` with and
   without `remove_reply_fallback()` at the spec's lists: there they are the spec's tables. The
   third block (T1) ties the lists the running implementation uses to the spec's.
@@ -17,7 +26,7 @@ import RumaModel.Lemmas.HtmlTables
 import RumaModel.Lemmas.HtmlPlain
 import RumaModel.Lemmas.HtmlBuilder
 namespace Ruma.Props.C14
-open Ruma Ruma.Html Ruma.Spec.HtmlPolicy Ruma.Lemmas.Html
+open Ruma Ruma.Html Ruma.Spec.HtmlPolicy Ruma.Spec.HtmlGlob Ruma.Lemmas.Html
 
 /-! ## For every configuration and every tree -/
 
@@ -39,7 +48,8 @@ theorem clean_attrs_allowed (L : Lists) (c : Cfg) (roots : List Node) :
 /-- On every element of the output, EVERY attribute (other than `class`, whose value is a class
 list and is rewritten by the class filter) carries an acceptable value: no denied scheme, and if
 the attribute has a scheme list the value starts with `scheme:` for a scheme of the list —
-whatever other attributes accompany it. -/
+whatever other attributes accompany it. (`valueOk` is stated in `Spec/HtmlPolicy.lean` without
+functions of the model; read as a statement: `policy_values_read`.) -/
 theorem clean_schemes_allowed (L : Lists) (c : Cfg) (roots : List Node) :
     AllElemsL (fun _ n as => ∀ a ∈ as, a.name ≠ className → valueOk L c n a.name a.value = true)
       0 (clean L c roots) :=
@@ -57,7 +67,9 @@ example :
     clean Spec.HtmlAllow.lists c [.elem (bs "p") [⟨none, [], className, bs "a:x b"⟩] []]
       = [.elem (bs "p") [⟨none, [], className, bs "b"⟩] []] := by decide +kernel
 
-/-- Every class left in a `class` attribute of the output is allowed for its element. -/
+/-- Every class left in a `class` attribute of the output is allowed for its element. (`classOk`
+is stated in `Spec/HtmlPolicy.lean` with the glob relation, without functions of the model; read
+as a statement: `policy_classes_read`.) -/
 theorem clean_classes_allowed (L : Lists) (c : Cfg) (roots : List Node) :
     AllElemsL (fun _ n as => ∀ a ∈ as, a.name = className →
       ∀ cl ∈ splitWs a.value, classOk L c n cl = true) 0 (clean L c roots) :=
@@ -79,6 +91,48 @@ theorem clean_depth_le (L : Lists) (c : Cfg) (roots : List Node) (m : Nat)
     roots 0 0 (Nat.le_refl 0)
   have := depth_of_allElemsL m _ 0 h (Nat.zero_le m)
   simpa [clean] using this
+
+/-- `valueOk`, read as a statement: no scheme of the element's and attribute's entry in the
+`deny_schemes` list starts the value, and if the attribute is restricted (`schemeList`: the entries
+of the given list and of the mode's tables, chained) some scheme of that list does. -/
+theorem policy_values_read (L : Lists) (c : Cfg) (el a v : Str) :
+    valueOk L c el a v = true ↔
+      (∀ l, c.denySchemes.bind (cell · el a) = some l → ∀ s ∈ l, hasScheme v s = false) ∧
+      (∀ l, Spec.HtmlPolicy.schemeList L c el a = some l → ∃ s ∈ l, hasScheme v s = true) :=
+  valueOk_iff_schemes L c el a v
+
+/-- `classOk`, read as a statement with the glob RELATION: no pattern of the element's
+`remove_classes` entry matches the class, and if there is an allow list (a list was given or a
+mode is set) some pattern of the element's entry in the given list matches it, or — where the
+mode's list counts — some pattern of the mode's entry. -/
+theorem policy_classes_read (L : Lists) (c : Cfg) (el cl : Str) :
+    classOk L c el cl = true ↔
+      (∀ pats, c.removeClasses.bind (mapGet · el) = some pats → ∀ p ∈ pats, ¬ GlobCp p cl) ∧
+      ((c.allowClasses.isSome ∨ c.mode.isSome) →
+        (∃ pats, c.allowClasses.bind (fun l => mapGet l.content el) = some pats ∧
+          ∃ p ∈ pats, GlobCp p cl) ∨
+        (modeCounts c.allowClasses = true ∧ c.mode.isSome ∧
+          ∃ pats, mapGet L.classes el = some pats ∧ ∃ p ∈ pats, GlobCp p cl)) :=
+  classOk_iff_glob L c el cl
+
+/-- The glob relation on code points is the glob relation of `Spec/Glob.lean` (Matrix spec,
+"Glob-style matching") on strings of Unicode scalar values — which is what a Rust `str` holds —;
+the spec-side procedure `globCp` decides it, and so does the model of `WildMatch::matches`. -/
+theorem glob_is_spec_glob (p s : Str) :
+    (Lemmas.HtmlGlob.Scalars p → Lemmas.HtmlGlob.Scalars s →
+      (GlobCp p s ↔ Spec.Glob.Glob (Lemmas.HtmlGlob.toText p) (Lemmas.HtmlGlob.toText s))) ∧
+    (globCp p s = true ↔ GlobCp p s) ∧ (globMatch p s = true ↔ GlobCp p s) :=
+  ⟨Lemmas.HtmlGlob.globCp_iff_Glob p s, Lemmas.HtmlGlob.globCp_iff p s,
+    Lemmas.HtmlGlob.globMatch_iff _ p s (Nat.le_refl _)⟩
+
+/-- The hypotheses of the first part are satisfiable: ASCII and non-ASCII text is scalar values. -/
+example : Lemmas.HtmlGlob.Scalars (bs "language-*") ∧ Lemmas.HtmlGlob.Scalars [0x6C, 0xE9, 0x1F600] := by
+  constructor <;> (unfold Lemmas.HtmlGlob.Scalars; decide)
+
+/-- `glob_is_spec_glob` on a concrete pattern: `language-*` matches `language-rust`, not `rust`. -/
+example : GlobCp (bs "language-*") (bs "language-rust") ∧ ¬ GlobCp (bs "language-*") (bs "rust") :=
+  ⟨(Lemmas.HtmlGlob.globCp_iff _ _).1 (by decide), fun h => by
+    have := (Lemmas.HtmlGlob.globCp_iff _ _).2 h; revert this; decide⟩
 
 /-- With reply-fallback removal, no `mx-reply` element remains (its content is gone as well:
 `clean_keeps_text_in_order` with `keptText` skipping it). -/
@@ -104,36 +158,61 @@ theorem clean_keeps_text_in_order (L : Lists) (c : Cfg) (roots : List Node) :
 removed by name (after the documented replacements), `mx-reply` under reply-fallback removal, or
 nested at or beyond the maximum depth. -/
 theorem clean_drops_subtree (L : Lists) (c : Cfg) (d : Nat) (n : Str) (as : List Attr) (cs : List Node)
-    (h : elemRemoved c (replaceNameOf L c n) = true ∨ depthExceeded L c d = true) :
+    (h : elemRemoved c (renamed L c n) = true ∨ tooDeep L c d = true) :
     cleanNode L c d (.elem n as cs) = [] := by
   apply cleanNode_removed
-  rw [removeCheck_eq]
+  rw [removeCheck_eq, ← renamed_eq_model, ← tooDeep_eq_model]
   rcases h with h | h <;> simp [h]
 
 /-- With reply-fallback removal, an `mx-reply` element (or one the configuration renames to
 `mx-reply`) disappears with everything inside it, wherever it stands — also below elements that
 are themselves kept or ignored — and whatever other lists say about it. -/
 theorem clean_drops_mx_reply (L : Lists) (c : Cfg) (d : Nat) (n : Str) (as : List Attr) (cs : List Node)
-    (h : c.removeReplyFallback = true) (hn : replaceNameOf L c n = replyName) :
+    (h : c.removeReplyFallback = true) (hn : renamed L c n = replyName) :
     cleanNode L c d (.elem n as cs) = [] :=
   clean_drops_subtree L c d n as cs (.inl (by simp [elemRemoved, h, hn]))
 
 /-- The elements of the output, in document order, are exactly the elements of the input that
 stand outside dropped subtrees, whose name is allowed and whose attribute values are all
 acceptable (`keptElemsL`), each with its filtered attribute set: allowed descendants of elements
-that are merely not allowed are kept, in order, and nothing else appears. -/
+that are merely not allowed are kept, in order, and nothing else appears.
+Which elements, under which names, in which order: `keptElemsL` says that without functions of the
+model (`clean_keeps_allowed_names` states just this part). The attribute set beside each name is
+the model's own `cleanAttrs … (replaceAttrsOf …)` on both sides of the equation — for that
+component this theorem says nothing beyond the model; what the specification says about it is
+`clean_attrs_allowed`, `clean_schemes_allowed`, `clean_classes_allowed`. -/
 theorem clean_keeps_allowed_descendants (L : Lists) (c : Cfg) (roots : List Node) :
     elemsOfL (clean L c roots) = keptElemsL L c 0 roots :=
   cleanList_elems L c roots 0
+
+/-- The names of the output's elements, in document order, are the names (after the documented
+replacements) of the input's elements that stand outside dropped subtrees, are allowed and carry
+only acceptable values — `keptNamesL` (`Spec/HtmlPolicy.lean`) contains no function of the model. -/
+theorem clean_keeps_allowed_names (L : Lists) (c : Cfg) (roots : List Node) :
+    (elemsOfL (clean L c roots)).map (·.1) = keptNamesL L c 0 roots := by
+  rw [clean_keeps_allowed_descendants, keptElemsL_names]
 
 /-- … and an element that is merely not allowed (ignored by name, not on the allow list, or
 carrying a value with a scheme that is denied / not allowed) is replaced by its cleaned children,
 which count one level deeper. -/
 theorem clean_hoists_children (L : Lists) (c : Cfg) (d : Nat) (n : Str) (as : List Attr) (cs : List Node)
-    (hr : elemRemoved c (replaceNameOf L c n) = false) (hd : depthExceeded L c d = false)
-    (h : elemOk L c (replaceNameOf L c n) = false ∨
-      ∃ a ∈ replaceAttrsOf L c n as, valueOk L c (replaceNameOf L c n) a.name a.value = false) :
+    (hr : elemRemoved c (renamed L c n) = false) (hd : tooDeep L c d = false)
+    (h : elemOk L c (renamed L c n) = false ∨
+      ∃ a ∈ as, valueOk L c (renamed L c n) (renamedAttr L c n a.name) a.value = false) :
     cleanNode L c d (.elem n as cs) = cleanList L c (d + 1) cs := by
+  rw [renamed_eq_model] at hr h
+  rw [tooDeep_eq_model] at hd
+  have h : elemOk L c (replaceNameOf L c n) = false ∨
+      ∃ a ∈ replaceAttrsOf L c n as, valueOk L c (replaceNameOf L c n) a.name a.value = false := by
+    rcases h with h | ⟨a, ha, hv⟩
+    · exact .inl h
+    · right
+      have := replaceAttrsOf_all L c n as (fun x v => valueOk L c (replaceNameOf L c n) x v)
+      have hf : (as.all fun a => valueOk L c (replaceNameOf L c n) (renamedAttr L c n a.name) a.value) = false := by
+        rw [List.all_eq_false]; exact ⟨a, ha, by simp [hv]⟩
+      rw [← this, List.all_eq_false] at hf
+      obtain ⟨b, hb, hbv⟩ := hf
+      exact ⟨b, hb, by simpa using hbv⟩
   have : nodeAction L c (replaceNameOf L c n) (replaceAttrsOf L c n as) d = .ignore := by
     rw [nodeAction_ignore_iff, removeCheck_eq, hr, hd]
     refine ⟨rfl, ?_⟩
@@ -158,10 +237,10 @@ theorem builder_reaches_every_cfg (c : Cfg) :
 list goes with its content whatever the ignore and allow lists say; an element on the ignore list
 (not removed, within the depth limit) is replaced by its children even if an allow list names it. -/
 theorem builder_precedence (L : Lists) (c : Cfg) (d : Nat) (n : Str) (as : List Attr) (cs : List Node) :
-    (optContains c.removeElements (replaceNameOf L c n) = true →
+    (optContains c.removeElements (renamed L c n) = true →
       cleanNode L c d (.elem n as cs) = []) ∧
-    (elemRemoved c (replaceNameOf L c n) = false → depthExceeded L c d = false →
-      optContains c.ignoreElements (replaceNameOf L c n) = true →
+    (elemRemoved c (renamed L c n) = false → tooDeep L c d = false →
+      optContains c.ignoreElements (renamed L c n) = true →
       cleanNode L c d (.elem n as cs) = cleanList L c (d + 1) cs) := by
   constructor
   · intro h
@@ -193,12 +272,12 @@ theorem builder_attrs (L : Lists) (c : Cfg) (el a : Str) :
 /-- The class allow list per element, likewise (patterns); `remove_classes` beats it. -/
 theorem builder_classes (L : Lists) (c : Cfg) (el cl : Str) :
     classOk L c el cl =
-      (!removedClass (c.removeClasses.bind (mapGet · el)) cl &&
+      (!matchesAny ((c.removeClasses.bind (mapGet · el)).getD []) cl &&
       match c.allowClasses with
-      | none => c.mode.isNone || anyGlob ((mapGet L.classes el).getD []) cl
-      | some ⟨true, l⟩ => anyGlob ((mapGet l el).getD []) cl
-      | some ⟨false, l⟩ => anyGlob ((mapGet l el).getD []) cl ||
-          (c.mode.isSome && anyGlob ((mapGet L.classes el).getD []) cl)) :=
+      | none => c.mode.isNone || matchesAny ((mapGet L.classes el).getD []) cl
+      | some ⟨true, l⟩ => matchesAny ((mapGet l el).getD []) cl
+      | some ⟨false, l⟩ => matchesAny ((mapGet l el).getD []) cl ||
+          (c.mode.isSome && matchesAny ((mapGet L.classes el).getD []) cl)) :=
   classOk_cases L c el cl
 
 /-- `allow_schemes(…, Override)`: an attribute is restricted exactly to the schemes the given
@@ -367,6 +446,9 @@ end Ruma.Props.C14
 #print axioms Ruma.Props.C14.clean_attrs_allowed
 #print axioms Ruma.Props.C14.clean_schemes_allowed
 #print axioms Ruma.Props.C14.clean_classes_allowed
+#print axioms Ruma.Props.C14.policy_values_read
+#print axioms Ruma.Props.C14.policy_classes_read
+#print axioms Ruma.Props.C14.glob_is_spec_glob
 #print axioms Ruma.Props.C14.clean_no_other_nodes
 #print axioms Ruma.Props.C14.clean_depth_le
 #print axioms Ruma.Props.C14.clean_no_mx_reply
@@ -374,6 +456,7 @@ end Ruma.Props.C14
 #print axioms Ruma.Props.C14.clean_drops_subtree
 #print axioms Ruma.Props.C14.clean_drops_mx_reply
 #print axioms Ruma.Props.C14.clean_keeps_allowed_descendants
+#print axioms Ruma.Props.C14.clean_keeps_allowed_names
 #print axioms Ruma.Props.C14.clean_hoists_children
 #print axioms Ruma.Props.C14.builder_reaches_every_cfg
 #print axioms Ruma.Props.C14.builder_precedence
@@ -384,6 +467,7 @@ end Ruma.Props.C14
 #print axioms Ruma.Props.C14.builder_schemes_strict
 #print axioms Ruma.Props.C14.plain_elemOk_spec
 #print axioms Ruma.Props.C14.plain_attrOk_spec
+#print axioms Ruma.Props.C14.plain_schemeList_spec
 #print axioms Ruma.Props.C14.plain_valueOk_spec
 #print axioms Ruma.Props.C14.plain_classOk_spec
 #print axioms Ruma.Props.C14.plain_maxDepth_spec
